@@ -1,6 +1,7 @@
 package main
 
 import (
+	"encoding/base64"
 	"encoding/json"
 	"errors"
 	"fmt"
@@ -8,6 +9,8 @@ import (
 	"sort"
 	"strings"
 
+	gonnx "github.com/advancedclimatesystems/gonnx"
+	"github.com/advancedclimatesystems/gonnx/onnx"
 	"github.com/advancedclimatesystems/gonnx/ops"
 	"github.com/advancedclimatesystems/gonnx/ops/opset13"
 	"gorgonia.org/tensor"
@@ -25,6 +28,32 @@ func init() {
 			return &hx.Violation{Kind: "bad-replay", Detail: err.Error()}
 		}
 		return g.run()
+	}
+	replayers["gate-model"] = func(raw json.RawMessage) *hx.Violation {
+		var r struct {
+			Model   string `json:"model_b64"`
+			N       int    `json:"n"`
+			InRange bool   `json:"in_range"`
+		}
+		if err := json.Unmarshal(raw, &r); err != nil {
+			return &hx.Violation{Kind: "bad-replay", Detail: err.Error()}
+		}
+		if r.InRange {
+			return nil
+		}
+		b, _ := base64.StdEncoding.DecodeString(r.Model)
+		res := hx.RunModelBytes(b, zeroFeedFor(b), []string{"y"})
+		switch {
+		case res.Panic != "":
+			return &hx.Violation{Kind: "panic", Detail: res.Panic}
+		case res.Err == nil:
+			return &hx.Violation{Kind: "not-refused", Detail: "ran"}
+		}
+		var ie *ops.InputError
+		if !errors.As(res.Err, &ie) {
+			return &hx.Violation{Kind: "wrong-error", Detail: res.Err.Error()}
+		}
+		return nil
 	}
 	replayers["lookup-history"] = func(raw json.RawMessage) *hx.Violation {
 		var h lookupHistory
@@ -85,8 +114,18 @@ func (g *gateCase) run() (v *hx.Violation) {
 		}
 	}
 	snaps := make([]hx.Snap, len(in))
+	native := make([]bool, len(in))
 	for i, d := range g.DTypes {
 		if d == "nil" {
+			continue
+		}
+		// Go-native int / uint backings are tensors gorgonia can build but no ONNX element type: never allowed
+		if d == "go-int" {
+			in[i], native[i] = tensor.New(tensor.WithShape(2), tensor.WithBacking([]int{1, 2})), true
+			continue
+		}
+		if d == "go-uint" {
+			in[i], native[i] = tensor.New(tensor.WithShape(2), tensor.WithBacking([]uint{1, 2})), true
 			continue
 		}
 		dt, _ := ref.DTFromName(d)
@@ -144,7 +183,7 @@ func (g *gateCase) run() (v *hx.Violation) {
 	}
 	out, verr := op.ValidateInputs(in)
 	for i, t := range in {
-		if t != nil {
+		if t != nil && !native[i] {
 			if d := snaps[i].Diff(hx.Snapshot(t)); d != "" {
 				return mk("mutated-input", fmt.Sprintf("input %d changed by the gate: %s", i, d))
 			}
@@ -506,7 +545,7 @@ var nonRegisteredOnnxOps = []string{"Abs ", " Abs", "abs", "ABS", "", "Identity"
 	"LogSoftMax", "SoftMax", "ArgMin", "Unique", "ReverseSequence", "SequenceAt", "ConcatFromSequence", "SplitToSequence", "Det", "NegativeLogLikelihoodLoss", "SoftmaxCrossEntropyLoss", "Trilu", "HardSwish", "Bernoulli", "GridSample", "Optional", "LayerNormalization"}
 
 func checkC15(c *hx.Checker) {
-	c.Rule = "names from opset13.GetOpNames() (must be exactly the registered set); per operator: every input count 0..max+2 (Concat 0..5) x dtype placement: full product of the 14 dtypes over all positions when max<=2, else every homogeneous row and every single- and two-position deviation from every homogeneous allowed row x nil at every position; " +
+	c.Rule = "names from opset13.GetOpNames() (must be exactly the registered set); per operator: every input count 0..max+2 (Concat 0..5) x dtype placement (the 14 ONNX element types plus Go-native int / uint tensors, which no gate may accept): full product of the dtypes over all positions when max<=2, else every homogeneous row and every single- and two-position deviation from every homogeneous allowed row x nil at every position; " +
 		"every homogeneous list additionally as a sub-slice of a longer array (spare capacity holding other tensors) and as the second request gated by one operator object after a longer / shorter / over-long / wrongly typed / empty first request; unknown names: 120 non-registered ONNX operator names, case/space variants, empty string; lookup independence: for 22 (operator, attribute set A, attribute set B) specs ALL interleavings of 2 lookups (20) and of 3 lookups (1680) of <Get, Init, Apply>, each Apply compared with its isolated result. " +
 		"states = distinct (operator, attribute-thread progress) configurations visited; transitions = Get/Init/Apply steps executed. non-trivial = every gate case with >= 1 input and every interleaving"
 	c.Assumptions = []string{"the allowed dtypes per position are the operator's own GetInputTypeConstraints (the property is about the gate enforcing its declaration before computing)",
@@ -527,6 +566,7 @@ func checkC15(c *hx.Checker) {
 	for _, d := range ref.AllDT {
 		all = append(all, d.String())
 	}
+	all = append(all, "go-int", "go-uint")
 	for _, name := range names {
 		op, err := opset13.GetOperator(name)
 		if err != nil {
@@ -666,6 +706,78 @@ func checkC15(c *hx.Checker) {
 		c.Case(hx.CaseInfo{ID: id, Tags: []string{"op=" + g.Op, "gate", fmt.Sprintf("n=%d", len(g.DTypes))}, NonTrivial: len(g.DTypes) > 0, Sample: g}, func() *hx.Violation { return g.run() })
 	})
 	transitions += int64(len(cases))
+	// the gate as Model.Run applies it: single-node models with 0..max+2 graph inputs wired to the node; a count
+	// outside the operator's range must make Run fail with the input error (inside the range the outcome is the
+	// operator's business and not judged)
+	for _, name := range names {
+		op, err := opset13.GetOperator(name)
+		if err != nil {
+			continue
+		}
+		min, max := op.GetMinInputs(), op.GetMaxInputs()
+		top := max + 2
+		if name == "Concat" {
+			min, max, top = 1, 1<<30, 4
+		}
+		tc := op.GetInputTypeConstraints()
+		for n := 0; n <= top; n++ {
+			n := n
+			g := &onnx.GraphProto{Name: "g", Output: []*onnx.ValueInfoProto{hx.ValueInfoNoShape("y")}}
+			var ins []string
+			feed := gonnx.Tensors{}
+			for i := 0; i < n; i++ {
+				dt := ref.F32
+				if name != "Concat" && i < len(tc) && len(tc[i]) > 0 {
+					if d, ok := hx.DTOf(tc[i][0]); ok {
+						dt = d
+					}
+				}
+				nm := fmt.Sprintf("x%d", i)
+				ins = append(ins, nm)
+				g.Input = append(g.Input, hx.ValueInfo(nm, dt, hx.FixedDims([]int{2})))
+				feed[nm] = hx.ToG(ref.Distinct(dt, []int{2}))
+			}
+			// attributes of the operator's representative (valid) case, so that Init succeeds and the gate is reached
+			var attrs []hx.Attr
+			for _, rc := range repCases() {
+				if rc.Op == name {
+					attrs = rc.Attrs
+					break
+				}
+			}
+			g.Node = []*onnx.NodeProto{hx.Node(name, ins, []string{"y"}, attrs)}
+			mb := hx.Marshal(hx.Model(g, 13))
+			inRange := n >= min && n <= max
+			id := fmt.Sprintf("gate-through-model/%s/n=%d", name, n)
+			c.Case(hx.CaseInfo{ID: id, Tags: []string{"op=" + name, "gate", "through-model", fmt.Sprintf("in-range=%v", inRange)}, NonTrivial: true}, func() (v *hx.Violation) {
+				mk := func(kind, detail string) *hx.Violation {
+					return &hx.Violation{Kind: kind, Detail: detail, Replay: map[string]any{"replay_kind": "gate-model", "model_b64": base64.StdEncoding.EncodeToString(mb), "n": n, "in_range": inRange}}
+				}
+				if inRange {
+					// what the operator does with well-counted but arbitrary operands is not this property's business
+					return hx.OK("in-range/not-judged")
+				}
+				defer func() {
+					if p := recover(); p != nil {
+						v = mk("panic", fmt.Sprintf("Run panicked: %v :: %s", p, firstLines(string(debug.Stack()), 12)))
+					}
+				}()
+				m, err := gonnx.NewModelFromBytes(mb)
+				if err != nil {
+					return mk("refused", "model does not load: "+err.Error())
+				}
+				_, rerr := m.Run(feed)
+				if rerr == nil {
+					return mk("not-refused", fmt.Sprintf("a %s node with %d inputs (allowed %d..%d) ran", name, n, min, max))
+				}
+				var ie *ops.InputError
+				if !errors.As(rerr, &ie) {
+					return mk("wrong-error", fmt.Sprintf("Run failed with %T (%v), expected the input error", rerr, rerr))
+				}
+				return hx.OK("rejected-through-model")
+			})
+		}
+	}
 	// unknown names
 	reg := map[string]bool{}
 	for _, n := range names {
@@ -736,4 +848,21 @@ func init() {
 		}
 		return nil
 	}
+}
+
+// zeroFeedFor: a tensor of the declared element type and shape (2) for every graph input of the model.
+func zeroFeedFor(b []byte) map[string]*ref.T {
+	feed := map[string]*ref.T{}
+	mp, err := gonnx.ModelProtoFromBytes(b)
+	if err != nil {
+		return feed
+	}
+	for _, in := range mp.GetGraph().GetInput() {
+		dt, ok := hx.RefDTOfOnnx(in.GetType().GetTensorType().GetElemType())
+		if !ok {
+			dt = ref.F32
+		}
+		feed[in.GetName()] = ref.Distinct(dt, []int{2})
+	}
+	return feed
 }
